@@ -241,6 +241,9 @@ func planHasSecondFileId(frame []byte) bool {
 func c10Chain(c *lib.Ctx, idx uint64) {
 	rng := lib.NewRand("C10.chains", idx)
 	k := 1 + rng.Intn(5)
+	if rng.Chance(1, 6) {
+		k = 6 + rng.Intn(6)
+	}
 	var parts [][]byte
 	var chain []byte
 	for i := 0; i < k; i++ {
@@ -289,7 +292,7 @@ func c10Chain(c *lib.Ctx, idx uint64) {
 			return
 		}
 	}
-	c.Count(fmt.Sprintf("chain_len_%d", k), 1)
+	c.Count(fmt.Sprintf("chain_len_%02d", k), 1)
 	c.Nontrivial(chain, []byte(ch.String()))
 	c.Sample("chain", 1, map[string]interface{}{"files": k, "bytes": len(chain), "chunker": ch.String()})
 }
